@@ -589,6 +589,55 @@ fn vp_native_settings_sequences_body() {
     println!("VP-NATIVE settings_sequences cases={}", cases);
 }
 
+/// C16: proxy settings are a value like the others: every ordered pair (old, new) out of settings that differ in a single
+/// component (http proxy, https proxy, one entry of the no-proxy list, its order, proxies disabled) - the one set last on the
+/// session / on the request is the one in force, for the request only when set on the request
+#[test]
+fn vp_native_proxy_settings_override() { crate::verif_native_watchdog::watched(vp_native_proxy_settings_override_body); }
+fn vp_native_proxy_settings_override_body() {
+    let u = |s: &str| Url::parse(s).unwrap();
+    let variants: Vec<(&str, Box<dyn Fn() -> crate::ProxySettings>)> = vec![
+        ("none", Box::new(|| crate::ProxySettings::builder().build())),
+        ("http p1", Box::new(move || crate::ProxySettings::builder().http_proxy(u("http://p1.test:3128")).build())),
+        ("http p2", Box::new(move || crate::ProxySettings::builder().http_proxy(u("http://p2.test:3128")).build())),
+        ("http p1 + https p1", Box::new(move || crate::ProxySettings::builder().http_proxy(u("http://p1.test:3128")).https_proxy(u("http://p1.test:3128")).build())),
+        ("http p1 + https p2", Box::new(move || crate::ProxySettings::builder().http_proxy(u("http://p1.test:3128")).https_proxy(u("http://p2.test:3128")).build())),
+        ("http p1, no a.test", Box::new(move || crate::ProxySettings::builder().http_proxy(u("http://p1.test:3128")).add_no_proxy_host("a.test").build())),
+        ("http p1, no b.test", Box::new(move || crate::ProxySettings::builder().http_proxy(u("http://p1.test:3128")).add_no_proxy_host("b.test").build())),
+        ("http p1, no a.test b.test", Box::new(move || crate::ProxySettings::builder().http_proxy(u("http://p1.test:3128")).add_no_proxy_host("a.test").add_no_proxy_host("b.test").build())),
+        ("http p1, no b.test a.test", Box::new(move || crate::ProxySettings::builder().http_proxy(u("http://p1.test:3128")).add_no_proxy_host("b.test").add_no_proxy_host("a.test").build())),
+        ("http p1 + https p1, no a.test", Box::new(move || crate::ProxySettings::builder().http_proxy(u("http://p1.test:3128")).https_proxy(u("http://p1.test:3128")).add_no_proxy_host("a.test").build())),
+        ("http p1 with credentials", Box::new(move || crate::ProxySettings::builder().http_proxy(u("http://user:pw@p1.test:3128")).build())),
+    ];
+    let probes = ["http://a.test/", "https://a.test/", "http://sub.a.test/", "http://b.test/", "https://b.test/", "http://c.test/", "https://c.test/"];
+    let view = |ps: &crate::ProxySettings| -> Vec<Option<String>> { probes.iter().map(|p| ps.for_url(&u(p)).map(|x| x.as_str().to_string())).collect() };
+    let mut cases = 0u64;
+    for (oname, old) in &variants { for (nname, new) in &variants {
+        let want_old = view(&old()); let want_new = view(&new());
+        // set on the session, then set again
+        let mut s = crate::Session::new(); s.proxy_settings(old());
+        let before = s.get("http://h.test/").prepare();
+        s.proxy_settings(new());
+        let after = s.get("http://h.test/").prepare();
+        assert_eq!(view(&before.base_settings.proxy_settings), want_old, "a request made before the session changed from {:?} to {:?}", oname, nname);
+        assert_eq!(view(&after.base_settings.proxy_settings), want_new, "a request made after the session changed from {:?} to {:?}", oname, nname);
+        // set on the session, overridden on one request; a clone of the session changed afterwards
+        let mut s = crate::Session::new(); s.proxy_settings(old());
+        let overridden = s.get("http://h.test/").proxy_settings(new()).prepare();
+        let sibling = s.get("http://h.test/").prepare();
+        let mut c = s.clone(); c.proxy_settings(new());
+        assert_eq!(view(&overridden.base_settings.proxy_settings), want_new, "a request of a session with {:?} that sets {:?} itself", oname, nname);
+        assert_eq!(view(&sibling.base_settings.proxy_settings), want_old, "the next request of that session ({:?}, a sibling set {:?})", oname, nname);
+        assert_eq!(view(&c.get("http://h.test/").prepare().base_settings.proxy_settings), want_new, "a clone of a session with {:?} set to {:?}", oname, nname);
+        assert_eq!(view(&s.get("http://h.test/").prepare().base_settings.proxy_settings), want_old, "the session ({:?}) whose clone was set to {:?}", oname, nname);
+        // set twice on the request: the last one holds
+        let twice = crate::get("http://h.test/").proxy_settings(old()).proxy_settings(new()).prepare();
+        assert_eq!(view(&twice.base_settings.proxy_settings), want_new, "a request that sets {:?} and then {:?}", oname, nname);
+        cases += 1; crate::verif_native_watchdog::progress();
+    } }
+    println!("VP-NATIVE proxy_settings_override cases={}", cases);
+}
+
 // ---------------------------------------------------------------- loopback servers for redirect / proxy / tunnel behaviour
 #[derive(Debug, Clone)] struct Seen { port: u16, first_line: String, host: Option<String>, body: Vec<u8>, raw_after_head: Vec<u8>, head: String, done: bool }
 /// waits until the servers have finished with every connection they have seen (at least `want` of them), instead of sleeping a fixed time
@@ -695,6 +744,31 @@ fn vp_native_redirect_chains_body() {
     let seen = log.lock().unwrap().clone();
     assert_eq!(seen.len(), 3);
     for x in &seen { assert!(x.first_line.starts_with("POST "), "{}", x.first_line); assert_eq!(x.body, b"payload-123", "body on hop {}", x.first_line); assert_eq!(x.host.as_deref(), Some(&format!("127.0.0.1:{}", port)[..])); }
+    // chains across origins: what each hop asks for - scheme, Host field and request target taken together, the URL a server
+    // reconstructs (RFC 9112 3.3) - is the Location of the previous answer resolved against the previous hop's URL
+    {
+        let xlog = Arc::new(Mutex::new(Vec::new()));
+        let ports: Arc<Mutex<(u16, u16)>> = Arc::new(Mutex::new((0, 0)));
+        let mk = |ports: Arc<Mutex<(u16, u16)>>| move |line: &str, _p: u16| -> Vec<u8> {
+            let (a, b) = *ports.lock().unwrap();
+            match line.split(' ').nth(1).unwrap_or("") {
+                "/x/one" => resp(302, Some(&format!("http://localhost:{}/y/two?k=1", b)), ""),      // absolute, another host name and port
+                "/y/two?k=1" => resp(301, Some(&format!("//127.0.0.1:{}/z/three", a)), ""),           // network-path reference back
+                "/z/three" => resp(307, Some("four"), ""),                                           // relative, same origin
+                "/z/four" => resp(308, Some(&format!("http://LOCALHOST:{}", b)), ""),                 // absolute without a path, host in capitals
+                "/" => resp(200, None, "end"),
+                _ => resp(404, None, "nf"),
+            }
+        };
+        let a = serve_early(xlog.clone(), mk(ports.clone())); let b = serve_early(xlog.clone(), mk(ports.clone()));
+        *ports.lock().unwrap() = (a, b);
+        let r = s.get(format!("http://127.0.0.1:{}/x/one", a)).header("Host", "stale.example").send().unwrap(); cases += 1; crate::verif_native_watchdog::progress();
+        let want = [format!("http://127.0.0.1:{}/x/one", a), format!("http://localhost:{}/y/two?k=1", b), format!("http://127.0.0.1:{}/z/three", a), format!("http://127.0.0.1:{}/z/four", a), format!("http://localhost:{}/", b)];
+        assert_eq!(r.url().as_str(), want[4], "the response reports the URL it was fetched from");
+        let seen = xlog.lock().unwrap().clone();
+        let asked: Vec<String> = seen.iter().map(|x| format!("http://{}{}", x.host.clone().unwrap_or_default(), x.first_line.split(' ').nth(1).unwrap_or(""))).collect();
+        assert_eq!(asked, want, "the URL each hop asked for (Host field + request target) against the resolved Locations");
+    }
     println!("VP-NATIVE redirect_chains cases={}", cases);
 }
 
@@ -764,6 +838,8 @@ fn vp_native_redirect_hops_with_bodies_body() {
         // the method varies with the case (every method a caller may use with a body, an extension method among them)
         let method = ["POST", "PUT", "PATCH", "DELETE", "PROPFIND"][(ki + status as usize) % 5];
         let rb = crate::RequestBuilder::try_with_settings(http::Method::from_bytes(method.as_bytes()).unwrap(), &url, s.get(&url).prepare().base_settings.clone()).unwrap().header("X-Caller", "keep-me").header("Authorization", "Bearer caller-token").header("Cookie", "sid=abc").header("Proxy-Authorization", "Basic Y2FsbGVy");
+        // every third case the caller has put a Host field of its own into the request: each hop still names its own URL's host
+        let rb = if (ki + status as usize) % 3 == 0 { rb.header("Host", "virtual.example:8080") } else { rb };
         let (res, want): (crate::Result<crate::Response>, Option<Vec<u8>>) = match kind {
             "empty" => (rb.send(), Some(vec![])),
             "text" => (rb.text("héllo text").send(), Some("héllo text".as_bytes().to_vec())),
@@ -797,6 +873,27 @@ fn vp_native_redirect_hops_with_bodies_body() {
             }
         }
     } }
+    // the same prepared request sent twice: the second exchange starts from the request's own URL again and every hop of it
+    // names its own host, whatever the first exchange left behind
+    for status in [302u16, 307] {
+        let url = format!("http://127.0.0.1:{}/{}/start", a, status);
+        let mut pr = s.post(&url).header("X-Caller", "keep-me").text("twice").prepare();
+        for round in 0..3 {
+            log.lock().unwrap().clear();
+            let r = pr.send().unwrap_or_else(|e| panic!("round {} of a prepared request sent repeatedly (status {}): {}", round, status, e));
+            assert_eq!((r.status().as_u16(), r.url().as_str()), (200, &format!("http://127.0.0.1:{}/{}/end", a, status)[..]));
+            let seen = log.lock().unwrap().clone();
+            cases += 1; crate::verif_native_watchdog::progress();
+            assert_eq!(seen.len(), 4, "four hops in round {}: {:?}", round, seen.iter().map(|x| x.first_line.clone()).collect::<Vec<_>>());
+            for (i, x) in seen.iter().enumerate() {
+                let hop_port = if i == 1 || i == 2 { b } else { a };
+                assert_eq!(x.port, hop_port, "hop {} of round {} went to the wrong server (status {})", i, round, status);
+                assert_eq!(x.host.as_deref(), Some(&format!("127.0.0.1:{}", hop_port)[..]), "Host of hop {} in round {} (status {})", i, round, status);
+                assert!(x.head.to_ascii_lowercase().contains("x-caller: keep-me"), "the caller's field is missing on hop {} of round {}", i, round);
+                if status == 307 { assert!(x.body == b"twice", "body of hop {} in round {}: {:?}", i, round, String::from_utf8_lossy(&x.body)); }
+            }
+        }
+    }
     let _ = std::fs::remove_file(&path);
     println!("VP-NATIVE redirect_hops_with_bodies cases={}", cases);
 }
